@@ -33,8 +33,14 @@ Stats0 == [events |-> 0, judged_ok |-> 0, judged_err |-> 0, skipped |-> 0,
 
 OutlineOf(e, dev) == Outline(e.a.glyphs, e.a.n, e.a.root, 0, dev)
 
+\* Dev_ScaledOffsetSign: a delivery is accepted if it traces the outline under either legitimate reading of a
+\* scaled component offset (the second one is evaluated only when the first does not fit and a matrix is involved)
+Hypot == [NoDev EXCEPT !.hypot = TRUE]
 Conforms(e, r) ==
-  CASE r.st = "ok"  -> e.o.ok /\ e.o.finite /\ TracesOutline(r, e.o.cmds)
+  CASE r.st = "ok"  -> /\ e.o.ok /\ e.o.finite
+                       /\ IF TracesOutline(r, e.o.cmds) THEN TRUE
+                          ELSE IF r.exact THEN FALSE
+                          ELSE LET r2 == OutlineOf(e, Hypot) IN r2.st = "ok" /\ TracesOutline(r2, e.o.cmds)
     [] r.st = "err" -> ~e.o.ok /\ ~e.o.panic
     [] OTHER        -> TRUE                      \* malformed / unmodelled / outside the numeric domain: not judged
 
@@ -45,9 +51,14 @@ Class(e, r) ==
   ELSE IF e.o.panic THEN "panic"
   ELSE IF ~e.o.ok THEN "error-on-wellformed-glyph"
   ELSE IF ~e.o.finite THEN "non-finite-coordinate"
-  ELSE IF Explains(e, [dropParent |-> TRUE, transpose |-> FALSE]) THEN "Dev_ParentTransformDropped"
-  ELSE IF Explains(e, [dropParent |-> FALSE, transpose |-> TRUE]) THEN "Dev_TwoByTwoTransposed"
-  ELSE IF Explains(e, [dropParent |-> TRUE, transpose |-> TRUE]) THEN "Dev_ParentTransformDropped+Dev_TwoByTwoTransposed"
+  \* (the readings that touch only components with the respective flags come first: on a glyph without such a
+  \* component they are the specification itself and explain nothing)
+  ELSE IF Explains(e, [NoDev EXCEPT !.unscaled = TRUE]) THEN "Dev_ScaledOffsetIgnored"
+  ELSE IF Explains(e, [NoDev EXCEPT !.noAnchor = TRUE]) THEN "Dev_PointNumbersIgnored"
+  ELSE IF Explains(e, [NoDev EXCEPT !.noAnchor = TRUE, !.unscaled = TRUE]) THEN "Dev_PointNumbersIgnored+Dev_ScaledOffsetIgnored"
+  ELSE IF Explains(e, [NoDev EXCEPT !.dropParent = TRUE]) THEN "Dev_ParentTransformDropped"
+  ELSE IF Explains(e, [NoDev EXCEPT !.transpose = TRUE]) THEN "Dev_TwoByTwoTransposed"
+  ELSE IF Explains(e, [NoDev EXCEPT !.dropParent = TRUE, !.transpose = TRUE]) THEN "Dev_ParentTransformDropped+Dev_TwoByTwoTransposed"
   ELSE LET P == SplitPaths(e.o.cmds) IN
        IF ~P.ok THEN "not-move-close-groups"
        ELSE IF Len(P.ps) # Len(r.cs) THEN "contour-count"
